@@ -257,6 +257,9 @@ func (d *decoder) decode() (Item, error) {
 		if acc != big.Exact {
 			return nil, fmt.Errorf("%w (integer)", ErrInvalidValue)
 		}
+		if err := CheckIntegerSize(num); err != nil {
+			return nil, fmt.Errorf("%w (%w)", ErrInvalidValue, err)
+		}
 		return NewBigInteger(num), nil
 	case bool:
 		return NewBool(t), nil
@@ -475,6 +478,9 @@ func FromJSONWithTypes(data []byte) (Item, error) {
 		val, ok := new(big.Int).SetString(s, 10)
 		if !ok {
 			return nil, mkErrValue(errors.New("not an integer"))
+		}
+		if err := CheckIntegerSize(val); err != nil {
+			return nil, mkErrValue(err)
 		}
 		return NewBigInteger(val), nil
 	case ByteArrayT, BufferT:
